@@ -10,7 +10,8 @@ PROPERTY = 'C03'
 LEVEL = 'fault_enumeration'
 RULE = ('A bundle (generated payload, CRC types incl. none so that CRCs cannot mask, two extension blocks and a hop-count '
         'block) gets a Block Integrity Block over {payload, an extension block, both} either (A) from a real source '
-        'agent with a COSE_Mac0 policy (HMAC-256/384/512) through its real transmit chain, or (B) from the independent '
+        'agent with a COSE_Mac0 policy (HMAC-256/384/512) through its real transmit chain, (S) from a real source agent with '
+        'a COSE_Sign1 policy (ES256/ES384, certificate in an x5chain, receiver holding the issuing CA / another CA / none), or (B) from the independent '
         'reference source with AAD scopes the repository source never emits ({0:1,-1:1,-2:1}, extra blocks with '
         'METADATA and/or BTSD flags, additional-protected parameter present or absent, CRC on the security block).  The '
         'encoded bundle is then altered field by field through the independent codec, CRCs recomputed: every primary '
@@ -25,9 +26,13 @@ RULE = ('A bundle (generated payload, CRC types incl. none so that CRCs cannot m
 SHRINK_KEYS = ('alterations',)
 SHRINK_KINDS = ('list',)
 ASSUMPTIONS = [
-    'COSE_Mac0 only: the installed pycose cannot produce COSE_Mac with a wrapped key nor load the upstream HMAC keys '
-    '(listed under skipped_kinds); COSE_Sign1 needs certificate validation against the wall clock and is exercised only '
-    'through the reference-built path when available',
+    'COSE_Mac0 and COSE_Sign1: the installed pycose cannot produce COSE_Mac with a wrapped key nor load the upstream HMAC '
+    'keys (listed under skipped_kinds)',
+    'COSE_Sign1 (direction S): the source signs with a fixed test end-entity key (fixtures/pki.json) and sends the '
+    'certificate as x5chain; the receiver validates the chain with the real certvalidator at the bundle creation time; '
+    'the reference checks the ECDSA signature over Sig_structure, the bundle-EID otherName against the security source and '
+    'is told whether the trust anchor is the issuing CA; it does not validate chains itself, so bit flips inside the '
+    'x5chain are judged one-directionally (delivered => reference verifies)',
     'for raw bit flips only "delivered => reference verifies" is asserted (a flip may make the bundle malformed for other reasons)',
 ]
 EXHAUSTIVE_PART = 'every single-bit flip of the enumerated CRC-less signed bundles; every catalogue alteration for each enumerated kind x target x scope'
@@ -51,10 +56,11 @@ def budgets(tier):
     return dict(shards=16, examples=300, deadline_s=3000)
 
 
+CURVES = {-7: 'p256', -35: 'p384'}
 ALTERATION_KINDS = ['pri-flags', 'pri-dest', 'pri-src', 'pri-rpt', 'pri-time', 'pri-seq', 'pri-lifetime', 'pri-crc-type',
                     'tgt-data', 'tgt-flags', 'tgt-type', 'tgt-num', 'tgt-crc-type', 'other-data', 'other-flags',
                     'sec-flags', 'sec-source', 'sec-scope', 'sec-addl-protected', 'res-tag', 'res-protected', 'res-kid',
-                    'wrong-key', 'no-key', 'bitflip']
+                    'wrong-key', 'no-key', 'bitflip', 'x5chain-flip']
 
 
 @st.composite
@@ -62,7 +68,8 @@ def cases(draw):
     alts = []
     for _ in range(draw(st.integers(4, 14))):
         alts.append([draw(st.sampled_from(ALTERATION_KINDS)), draw(st.integers(0, 255)), draw(st.integers(0, 4000))])
-    return {'direction': draw(st.sampled_from(['A', 'B'])), 'alg': draw(st.sampled_from([5, 6, 7])),
+    direction = draw(st.sampled_from(['A', 'B', 'S']))
+    return {'direction': direction, 'alg': draw(st.sampled_from([5, 6, 7] if direction != 'S' else [-7, -35])),
             'targets': draw(st.sampled_from([['payload'], ['ext'], ['payload', 'ext']])),
             'scope': draw(st.integers(0, len(SCOPES) - 1)), 'addl': draw(st.booleans()),
             'plen': draw(st.sampled_from([0, 1, 5, 24, 300])), 'seed': draw(st.integers(0, 99)),
@@ -76,7 +83,7 @@ def strategy(tier):
 
 def enumerate_cases(tier):
     # every catalogue alteration for each kind x target x scope
-    catalogue = [[k, i, i * 7] for k in ALTERATION_KINDS if k != 'bitflip' for i in (0, 1, 2)]
+    catalogue = [[k, i, i * 7] for k in ALTERATION_KINDS if k not in ('bitflip', 'x5chain-flip') for i in (0, 1, 2)]
     combos = list(itertools.product(('A', 'B'), ([5], [6, 7])[0:1] if tier == 'quick' else ([5], [6], [7]),
                                     (['payload'], ['ext'], ['payload', 'ext']), range(len(SCOPES))))
     for direction, algs, targets, scope in combos:
@@ -84,11 +91,16 @@ def enumerate_cases(tier):
             continue
         yield {'direction': direction, 'alg': algs[0], 'targets': targets, 'scope': scope, 'addl': scope % 2 == 1,
                'plen': 5, 'seed': 1, 'pcrc': 0, 'bcrc': 0, 'sec_crc': 0, 'alterations': catalogue}
+    for alg, targets in itertools.product((-7,) if tier == 'quick' else (-7, -35), (['payload'], ['ext'], ['payload', 'ext'])):
+        yield {'direction': 'S', 'alg': alg, 'targets': targets, 'scope': 0, 'addl': False, 'plen': 5, 'seed': 1, 'pcrc': 0,
+               'bcrc': 0, 'sec_crc': 0, 'alterations': catalogue + [['x5chain-flip', 0, pos] for pos in range(0, 440, 37)]}
     # exhaustive single-bit flips of small CRC-less signed bundles, in chunks
-    for direction in ('A', 'B'):
-        base = {'direction': direction, 'alg': 5, 'targets': ['payload'], 'scope': 0 if direction == 'A' else 1, 'addl': False,
+    for direction in ('A', 'B', 'S'):
+        base = {'direction': direction, 'alg': 5 if direction != 'S' else -7, 'targets': ['payload'], 'scope': 1 if direction == 'B' else 0, 'addl': False,
                 'plen': 3, 'seed': 2, 'pcrc': 0, 'bcrc': 0, 'sec_crc': 0}
         nbits = 8 * (150 if tier == 'quick' else 260)
+        if direction == 'S':
+            nbits = 8 * (700 if tier != 'quick' else 0)     # the x5chain makes the bundle ~650 octets
         step = 96
         for start in range(0, nbits, step):
             yield dict(base, alterations=[['bitflip', 0, bit] for bit in range(start, start + step)])
@@ -118,10 +130,15 @@ def sign(case, out):
     bundle = base_bundle(case)
     target_nums = [1 if t == 'payload' else 2 for t in case['targets']]
     kid = 'k-mac-1'
-    if case['direction'] == 'A':
+    if case['direction'] in ('A', 'S'):
         bw.reset()
         src = bw.Node('dtn://srcnode/', tx_routes=[('.*', 'dtn://next/', None)], name='source')
-        bu.give_key(src, kid, case['alg'], 'mac')
+        if case['direction'] == 'S':
+            # COSE_Sign1 with the end-entity certificate in an x5chain (additional unprotected parameter)
+            kid = 'k-sign'
+            bu.give_signing_identity(src, 'dtn://srcnode/', CURVES[case['alg']])
+        else:
+            bu.give_key(src, kid, case['alg'], 'mac')
         types = sorted({1 if t == 'payload' else 192 for t in case['targets']})
         bu.add_policy(src, 'bib', kid, types)
         err = src.send(BundleContainer(bpconv.to_repo(bundle)))
@@ -149,9 +166,15 @@ def receive(bundle_or_wire, alg, key_override=None, no_key=False):
     from vlib import bp_world as bw, ref9171 as r, bpsec_util as bu
     bw.reset()
     node = bw.Node('dtn://dst/', rx_routes=[('^dtn://dst/', 'deliver')], tx_routes=[('.*', 'dtn://next/', None)], name='dst')
-    if not no_key:
-        bu.give_key(node, 'k-mac-1', alg, 'mac', keybytes=key_override)
-    bu.give_key(node, 'k-mac-2', alg, 'mac')
+    if alg in CURVES:
+        # Sign1: the "key" is the trust anchor; wrong key = some other CA, no key = no trust anchor at all
+        if not no_key:
+            bu.trust(node, 'dtn://srcnode/', CURVES[alg], 1 if key_override is not None else 0)
+        bu.give_key(node, 'k-mac-2', 5, 'mac')
+    else:
+        if not no_key:
+            bu.give_key(node, 'k-mac-1', alg, 'mac', keybytes=key_override)
+        bu.give_key(node, 'k-mac-2', alg, 'mac')
     finishes = []
     orig = node.agent._finish_bundle
 
@@ -174,6 +197,9 @@ def execute(case):
         return out
     alg = case['alg']
     good_keys = bu.ref_keys(['k-mac-1', 'k-mac-2'])
+    sign1 = case['direction'] == 'S'
+    if sign1:
+        good_keys['trust-anchor-ok'] = True     # the receiver trusts the CA that issued the source certificate
     out.label('direction:' + case['direction'], 'alg:%d' % alg, 'targets:' + '+'.join(case['targets']),
               'scope:%d' % (case['scope'] if case['direction'] == 'B' else -1))
     # differential on the unmodified bundle: reference verifies the tag, receiver delivers
@@ -201,11 +227,20 @@ def execute(case):
         key_override = None
         no_key = False
         one_directional = False
-        if kind == 'wrong-key':
+        if kind == 'res-kid' and sign1:
+            continue     # a Sign1 from this source carries no kid; adding one is not an alteration the property lists
+        if kind == 'x5chain-flip':
+            if not sign1:
+                continue
+            mutated = bu.edit_asb(signed, 11, lambda asb: _flip_x5chain(asb, arg2))
+            wire = r.encode(mutated)
+            one_directional = True      # the reference does not validate certificate chains
+        elif kind == 'wrong-key':
             mutated = signed
             key_override = bu.KEYS['k-mac-2']
             keys = dict(good_keys)
             keys[b'k-mac-1'] = key_override
+            keys['trust-anchor-ok'] = False
             wire = r.encode(mutated)
         elif kind == 'no-key':
             mutated = signed
@@ -291,6 +326,16 @@ def execute(case):
     return out
 
 
+def _flip_x5chain(asb, position):
+    ''' Flip one bit inside the additional-unprotected parameter (the x5chain with the source certificate). '''
+    for prm in asb['params']:
+        if prm[0] == 4 and prm[1]:
+            data = bytearray(bytes(prm[1]))
+            data[position % len(data)] ^= 1 << (position % 8)
+            prm[1] = bytes(data)
+            return
+
+
 def evidence_extra(tier):
     return {'skipped_kinds': ['COSE_Mac with wrapped key (pycose 1.1.0: HMAC algorithms have no get_key_length)',
-                              'COSE_Sign1 (x5chain validation uses the wall clock)']}
+                              ]}
